@@ -316,7 +316,7 @@ func OwnLayers(n *gen.Node) []Layer {
 		out = []Layer{l}
 	case "secondary", "combine":
 		out = []Layer{secondaryL}
-	case "newfwe":
+	case "newfwe", "newfew":
 		out = []Layer{st(), secondaryL, secondaryL, libL("errutil", "withNewMessage")}
 	case "wrapfe":
 		out = []Layer{st(), secondaryL, withPrefix}
@@ -342,6 +342,8 @@ func OwnLayers(n *gen.Node) []Layer {
 				out[i].Hides = n.Kids[0] // the %w argument is also recorded as a secondary error
 			case n.Kind == "newfwe" && nsec == 1:
 				out[i].Hides = n.Kids[0]
+			case n.Kind == "newfew" && nsec == 0:
+				out[i].Hides = n.Kids[0] // error arguments are attached in order: the outermost secondary is the last argument
 			case len(n.Hidden) > 0:
 				out[i].Hides = n.Hidden[0]
 			}
@@ -377,6 +379,8 @@ func Text(n *gen.Node) string {
 		return S[0] + " " + S[1]
 	case "newfwe":
 		return S[0] + " " + k(0) + " " + S[1] + " " + h(0)
+	case "newfew":
+		return S[0] + " " + h(0) + " " + S[1] + " " + k(0)
 	case "goerr", "new", "pkgnew", "nofmtleaf", "fmtleaf", "unimpl", "domnew", "gstatus",
 		"oldfmtleaf", "fmtrleaf", "ncleaf", "isleaf", "lowleaf", "asleaf", "stacksafeleaf", "elidewrap", "handledmsg", "unimpld":
 		return S[0]
